@@ -1265,9 +1265,15 @@ def timestamp_ntz(expression: exp.Expression) -> exp.Expression:
     NB: timestamp_ntz defaults to nanosecond precision (ie: NTZ(9)). The duckdb equivalent is TIMESTAMP_NS.
     However we use TIMESTAMP (ie: microsecond precision) here rather than TIMESTAMP_NS to avoid
     https://github.com/duckdb/duckdb/issues/7980 in test_write_pandas_timestamp_ntz.
+
+    The same goes for TIMESTAMP and DATETIME (aliases of timestamp_ntz) given a precision, eg: TIMESTAMP(3), which
+    duckdb would otherwise turn into TIMESTAMP_MS or TIMESTAMP_NS.
     """
 
-    if isinstance(expression, exp.DataType) and expression.this == exp.DataType.Type.TIMESTAMPNTZ:
+    if isinstance(expression, exp.DataType) and (
+        expression.this == exp.DataType.Type.TIMESTAMPNTZ
+        or (expression.this in (exp.DataType.Type.TIMESTAMP, exp.DataType.Type.DATETIME) and expression.expressions)
+    ):
         return exp.DataType(this=exp.DataType.Type.TIMESTAMP)
 
     return expression
